@@ -60,5 +60,5 @@ GSpec == GInit /\ [][GNext]_gvars
 Order == [i \in 1..Len(LinesOf(stream)) |-> LinesOf(stream)[i][1] \div 100]
 
 Emit == (AllDone /\ running = 0) =>
-            CSVWrite("%1$s", <<ToJson([gates |-> NGates, big |-> [p \in Procs |-> IF BigRec[p] THEN 1 ELSE 0], sched |-> hist, order |-> Order])>>, "hybrid_schedules.ndjson")
+            CSVWrite("%1$s", <<ToJson([gates |-> NGates, big |-> [p \in Procs |-> IF BigRec[p] THEN 1 ELSE 0], fault |-> Fault, sched |-> hist, order |-> Order])>>, "hybrid_schedules.ndjson")
 =============================================================================
